@@ -33,7 +33,7 @@ Definition I_cons (mf : order -> N -> mres) : Prop :=
         vis u + hid u + m_consumed (mf o inc) = vis o + hid o /\
         hid u + m_hidden_reduced (mf o inc) = hid o /\
         same_identity o u
-    | None => m_hidden_reduced (mf o inc) = 0
+    | None => m_hidden_reduced (mf o inc) = 0 /\ vis o <= inc   (* leaves only when exhausted *)
     end.
 
 (* weaker interface, enough for the queue-discipline properties *)
